@@ -99,6 +99,10 @@ EvalClause(e) ==
              ELSE IF IsZero(e.Q) /\ e.jn = "j0" /\ (Lt(e.val.v, Sci(995, -3)) \/ Gt(e.val.v, Sci(1005, -3))) THEN "J0IsOneAtZero"
              ELSE IF IsZero(e.Q) /\ e.jn \in {"j2", "j4", "j6"} /\ ~IsZero(e.val.v) THEN "HigherOrdersVanishAtZero"
              ELSE "ok"
+\* the row's label is the symbol of its Z, possibly followed by a hybridisation / spin-state note (Csp3, Fel.s.)
+LabelStartsWithSymbol(lab, z) ==
+  LET sym == Hdr.symcodes[ToString(z)]
+  IN Len(lab) >= Len(sym) /\ SubSeq(lab, 1, Len(sym)) = sym
 Emit(id, c) == c # "ok" => PrintT("@@" \o ToJson([id |-> id, clause |-> c]))
 Step ==
   /\ l <= Len(Log)
@@ -106,9 +110,14 @@ Step ==
   /\ LET e == Log[l]
      IN CASE e.ev = "cordero" ->
                /\ cov' = IF e.alt THEN cov ELSE (e.z :> [r |-> e.r, u |-> e.u]) @@ cov      \* first spin state only
-               /\ Emit(e.id, IF e.alt \/ e.z \notin DOMAIN cov THEN "ok" ELSE "CorderoDuplicateZ")
+               /\ Emit(e.id, IF ~e.alt /\ e.z \in DOMAIN cov THEN "CorderoDuplicateZ"
+                             ELSE IF ~e.alt /\ "label" \in DOMAIN e /\ ~LabelStartsWithSymbol(e.label, e.z) THEN "CorderoRowLabelMatchesZ" ELSE "ok")
                /\ UNCHANGED <<cryst, emis, mag, cm>>
-          [] e.ev = "cryst" -> cryst' = (e.z :> e.value) @@ cryst /\ UNCHANGED <<cov, emis, mag, cm>>
+          [] e.ev = "cryst" ->      \* (the row's own '#Sym' comment names the element whose index it sits at; 'X' is the neutron's row)
+               /\ cryst' = (e.z :> e.value) @@ cryst
+               \* (a single wrong comment is a typo - row 65 says Th for Tb -; a run of them is a shifted table)
+               /\ Emit(e.id, IF "shifted" \in DOMAIN e /\ e.shifted THEN "CrystalRowsShiftedAgainstTheirLabels" ELSE "ok")
+               /\ UNCHANGED <<cov, emis, mag, cm>>
           [] e.ev = "emis" ->
                /\ emis' = (ZOfCodes(e.sym) :> [ka |-> e.ka, kb |-> e.kb]) @@ emis
                /\ Emit(e.id, IF ZOfCodes(e.sym) >= 1 THEN "ok" ELSE "EmissionSymbolKnown")
